@@ -115,7 +115,7 @@ func vc_C01_rotatez3d() {
 }
 
 // truncated cone: admissible rounding = inset radii stay non-negative
-func vc_C01_cone3d() { vfCone(0) }
+func vt_C01_cone3d() { vfCone(0) } // thorough only: ~3 min of nlsat time, occasionally undecided under load
 
 func vt_C01_cone3d_rounded() { vfCone(vfReal("round")) }
 
